@@ -27,6 +27,8 @@ import ZODB.interfaces
 import ZODB.POSException
 import ZODB.TimeStamp
 import ZODB.utils
+from ZODB._compat import _protocol
+from ZODB._compat import dumps
 
 
 @zope.interface.implementer(
@@ -365,6 +367,13 @@ class TransactionRecord:
     _extension = property(lambda self: self.extension,
                           lambda self, v: setattr(self, 'extension', v),
                           )
+
+    @property
+    def extension_bytes(self):
+        # What a storage's tpc_begin() reads when transactions are copied
+        # from this storage (copyTransactionsFrom).
+        extension = self.extension
+        return dumps(extension, _protocol) if extension else b''
 
     def __iter__(self):
         for oid, data in self.data.items():
